@@ -51,9 +51,9 @@ type Edge struct {
 type Vertex struct {
 	ID    int
 	Kind  VKind
-	Node  ast.Node // statement, condition expression, case expression, *ast.SelectStmt, *ast.TypeSwitchStmt, *ast.RangeStmt
+	Node  ast.Node // simple statement, atomic condition expression, or case expression evaluated at this vertex (nil for Select/TypeSwitch/Range heads: see Stmt)
 	Tag   ast.Expr // VSwitchCase: the switch tag
-	Stmt  ast.Stmt // enclosing control statement for VCond (IfStmt/ForStmt/SwitchStmt) where known
+	Stmt  ast.Stmt // owning control statement: If/For/Switch for conditions; the *ast.SelectStmt / *ast.TypeSwitchStmt / *ast.RangeStmt for those heads
 	Succs []Edge
 	Preds []Edge
 	// Clause is set for the first vertex of a select comm clause body: the comm statement.
@@ -380,7 +380,8 @@ func (b *gbuilder) typeSwitchStmt(s *ast.TypeSwitchStmt, label *glblock) {
 	if s.Init != nil {
 		b.stmt(s.Init)
 	}
-	head := b.g.newV(VTypeSwitch, s)
+	head := b.g.newV(VTypeSwitch, nil)
+	b.g.V[head].Stmt = s
 	b.emit(head)
 	done := b.join()
 	if label != nil {
@@ -407,7 +408,8 @@ func (b *gbuilder) typeSwitchStmt(s *ast.TypeSwitchStmt, label *glblock) {
 }
 
 func (b *gbuilder) selectStmt(s *ast.SelectStmt, label *glblock) {
-	head := b.g.newV(VSelect, s)
+	head := b.g.newV(VSelect, nil)
+	b.g.V[head].Stmt = s
 	b.emit(head)
 	done := b.join()
 	if label != nil {
@@ -471,7 +473,8 @@ func (b *gbuilder) forStmt(s *ast.ForStmt, label *glblock) {
 
 func (b *gbuilder) rangeStmt(s *ast.RangeStmt, label *glblock) {
 	b.add(s.X)
-	loop := b.g.newV(VRange, s)
+	loop := b.g.newV(VRange, nil)
+	b.g.V[loop].Stmt = s
 	b.emit(loop)
 	body := b.join()
 	done := b.join()
@@ -628,7 +631,7 @@ func (g *Graph) String(fset *token.FileSet) string {
 		case VTypeSwitch:
 			desc = "typeswitch"
 		case VRange:
-			desc = "range " + exprStr(v.Node.(*ast.RangeStmt).X)
+			desc = "range " + exprStr(v.Stmt.(*ast.RangeStmt).X)
 		case VSwitchCase:
 			desc = "case " + exprStr(v.Tag) + " == " + exprStr(v.Node.(ast.Expr))
 		case VCond:
